@@ -11,6 +11,7 @@ import Vlsp.Spec.LatestSpec
 import Vlsp.Spec.Ranges
 import Vlsp.Spec.RefEco
 import Vlsp.Model.Checker
+import Vlsp.Model.Claim
 
 /-! Line-protocol plumbing shared by the driver's op tables. -/
 namespace DriverLib
@@ -125,6 +126,7 @@ def specDiag (eco latest tagres cur : Text) (versions : List Text) : String :=
 def intOfText (t : Text) : Int := (String.ofList t).toInt!
 
 structure DState where
+  claim : Claim.Sys := Claim.init {} 0
   db : Db := {}
   cfg : CacheCfg := ⟨86400000, true⟩
   now : Int := 0
@@ -180,6 +182,26 @@ def cacheStep (st : DState) (op : String) (f : List Text) : Option (DState × St
     let tagO : Option Text := match tag with | 'S' :: r => some r | _ => none
     let ansO : Option Text := match ans with | 'S' :: r => some r | _ => none
     some (st, tf (Spec.LatestSpec.acceptable (ip == ['T']) tagO rows ansO))
+  | "q.reset", [] => some ({ st with claim := Claim.init {} 0 }, "ok")
+  | "q.tick", [d] => some ({ st with claim := Claim.step st.claim (.tick (intOfText d).toNat) }, "ok")
+  | "q.start", [c, _, reg, name] =>
+    let σ' := Claim.step st.claim (.start (intOfText c).toNat ⟨reg, name⟩)
+    some ({ st with claim := σ' }, if σ'.wins.length > st.claim.wins.length then "T" else "P")
+  | "q.insert", [c] =>
+    let cn := (intOfText c).toNat
+    if (st.claim.pending.find? (·.1 == cn)).isNone then some (st, "nop")
+    else
+      let σ' := Claim.step st.claim (.insert cn)
+      some ({ st with claim := σ' }, if σ'.wins.length > st.claim.wins.length then "T" else "F")
+  | "q.busy", [c] =>
+    let cn := (intOfText c).toNat
+    if (st.claim.pending.find? (·.1 == cn)).isNone then some (st, "nop")
+    else some ({ st with claim := Claim.step st.claim (.busy cn) }, "E:db")
+  | "q.atomic", [c, _, reg, name] =>
+    let σ' := Claim.step st.claim (.startAtomic (intOfText c).toNat ⟨reg, name⟩)
+    some ({ st with claim := σ' }, if σ'.wins.length > st.claim.wins.length then "T" else "F")
+  | "q.release", [_, reg, name] => some ({ st with claim := Claim.step st.claim (.release ⟨reg, name⟩) }, "ok")
+  | "q.dump", [] => some (st, dumpDb st.claim.db)
   | "latest.same", [a, b] =>
     match Semver.parseVersion a, Semver.parseVersion b with
     | some x, some y => some (st, tf (Semver.cmp x y == .eq))
